@@ -226,6 +226,7 @@ def handleSearch : Handler := fun st op args =>
   -- the required answer, and a context of an earlier, finished call is no part of a later call's oracle
   | "ctxc", _ => some (st, "ok")
   | "ctxprev", _ => some (st, "ok")
+  | "gmprev", _ => some (st, "ok")
   -- race-detector run of the repository's cancel tests (supporting evidence only; no model side)
   | "racecheck", _ => some (st, "ok")
   | "eqclaim", [a, b] => some (st, if a == b then "1" else "0")
